@@ -445,6 +445,7 @@ func runPSI(line []byte, rec *recorder) {
 			err = fmt.Errorf("panic %v", pn)
 		}
 		e["gerr"] = errStr(err)
+		scramble(unit)
 		if err == nil {
 			got := []M{}
 			for _, s := range d.Sections {
@@ -455,6 +456,7 @@ func runPSI(line []byte, rec *recorder) {
 			}
 			e["got"], e["gptr"] = got, d.PointerField
 		}
+		scramble(unit)
 		// and through the public API: DemuxerData field for field (one section kinds only when they share a PID)
 		tabs, errs, pan := demuxOutcome(ms[0].K, unit)
 		_ = tabs
